@@ -114,7 +114,7 @@ func c06Check(in c06Input) (key, what string) {
 			return "", ""
 		}
 		c06Decorate(r, f, in.Dens)
-		if len(f.Decs.Start) > 0 && f.Decs.Start[0] == "\n" {
+		if firstEmissionIsNewline(f) {
 			return "", ""
 		}
 		want, err, pm := printDst(f)
